@@ -980,24 +980,28 @@ def check_indices_canonical(p, report):
     if not ps:
         raise AnalysisError("check_indices has no parameters")
     ix = ps[0]
-    # the branch taken for unique=True: an `elif unique:` / `if unique:` whose test is the bare parameter
-    branches = [n for n in ast.walk(g.node) if isinstance(n, ast.If) and isinstance(n.test, ast.Name) and n.test.id == "unique"]
-    if not branches:
-        raise AnalysisError("de-duplicating branch of check_indices not found")
-    for br in branches:
-        binds = [a for st in br.body for a in ast.walk(st) if isinstance(a, ast.Assign)
-                 and any(isinstance(t, ast.Name) and t.id == ix for t in a.targets)]
-        def canonical(v):
-            if isinstance(v, ast.Call) and (c01.callname(v) or "") in ("unique", "sort") and v.args \
-                    and not any(k.arg in ("return_index", "return_inverse", "return_counts") for k in v.keywords):
-                return True
-            return False
-        bad = [a for a in binds if not canonical(a.value)]
-        report.add("R8.15", g.qual, f"`{norm_stmt(br, 40)}`: indices bound to their sorted set", f"{g.file}:{(bad[0] if bad else br).lineno}",
-                   bool(binds) and not bad, detail=f"{len(binds)} binding(s), each np.unique(...)" if binds and not bad else
-                   (f"`{norm_stmt(bad[0], 60)}` keeps an order chosen by the caller: the same candidate set given in another "
-                    f"order (a shuffled or ranked index array) reaches the strategies as a differently ordered X_cand"
-                    if bad else "the branch no longer de-duplicates the indices"))
+    CONV = {"check_array", "asarray", "array", "tuple", "column_or_1d", "astype", "asanyarray"}
+
+    def canonical(v, depth=0):
+        if isinstance(v, ast.Call) and (c01.callname(v) or "") in ("unique", "sort") and v.args \
+                and not any(k.arg in ("return_index", "return_inverse", "return_counts") for k in v.keywords):
+            return True
+        if isinstance(v, ast.Name) and depth < 2 and v.id != ix:
+            defs = [a.value for a in ast.walk(g.node) if isinstance(a, ast.Assign)
+                    and any(isinstance(t, ast.Name) and t.id == v.id for t in a.targets)]
+            return bool(defs) and all(canonical(d, depth + 1) for d in defs)
+        return False
+
+    binds = [a for a in ast.walk(g.node) if isinstance(a, ast.Assign)
+             and any(isinstance(t, ast.Name) and t.id == ix for t in a.targets)]
+    conv = [a for a in binds if isinstance(a.value, ast.Call) and (c01.callname(a.value) or "") in CONV]
+    canon = [a for a in binds if a not in conv and canonical(a.value)]
+    bad = [a for a in binds if a not in conv and a not in canon]
+    report.add("R8.15", g.qual, f"every re-binding of `{ix}` is a conversion or its sorted set", f"{g.file}:{(bad[0] if bad else g.node).lineno}",
+               bool(canon) and not bad, detail=f"{len(canon)} canonicalising binding(s) (np.unique), {len(conv)} conversion(s)" if canon and not bad else
+               (f"`{norm_stmt(bad[0], 60)}` keeps an order chosen by the caller: the same candidate set given in another "
+                f"order (a shuffled or ranked index array) reaches the strategies as a differently ordered X_cand"
+                if bad else "check_indices no longer de-duplicates (np.unique) the indices"))
 
 
 def check_conditional_expect_rows(p, report):
